@@ -76,6 +76,17 @@ for f in outs:
         bounded.append({"check": rep['check'], "function": rep.get('function'), "scope": rep.get('scope'), "cases": rep.get('cases'),
                         "distinct_nontrivial": rep.get('distinct_nontrivial'), "exhaustive": rep.get('exhaustive'),
                         "violations_by_class": byclass, "samples": rep.get('samples')})
+    if not found and 'panic: test timed out' in text:
+        # the code under test did not return within the harness budget (20x its normal running time): C08 "never hangs"
+        # for every property whose stand-in this is
+        rdir = os.path.join(verif, 'replays', pid)
+        os.makedirs(rdir, exist_ok=True)
+        replay = os.path.join(rdir, 'bounded-timeout.json')
+        json.dump({"property": pid, "note": "the bounded harness did not finish: a call into the code under test never returned (goroutine dump below)",
+                   "output_tail": text.splitlines()[-60:]}, open(replay, 'w'), indent=1)
+        lines.append("VIOLATION property=%s replay=%s check=bounded-harness class=hang/harness-timed-out inputs=1" % (pid, replay))
+        violations += 1
+        found = True
     if not found and ('FAIL' in text or 'panic' in text or 'build failed' in text):
         harness_error = True
         lines.append("HARNESS-ERROR: bounded harness output %s has no report for %s:\n%s" % (f, pid, "\n".join(text.splitlines()[-15:])))
